@@ -1,7 +1,8 @@
 /-
   C14 — COSE_Key conversion keeps EC2 coordinates at full length and round-trips every key.
-  `big.Int.Bytes()` is `natBytes`, `SetBytes` is `os2ip`, the left padding of key.go:569-578 is
-  `leftPad`; for every curve size and all coordinate values (no bound).
+  `big.Int.Bytes()` is `natBytes`, `FillBytes` is `fillBytes`, `SetBytes` is `os2ip`, the left
+  padding of key.go:569-578 is `leftPad`, the constructor's `ec2Coordinate(v, size)` is
+  `ec2Coordinate`; for every curve size and all coordinate values (no bound, 0 included).
 -/
 import CoseProofs.Lemmas.Ecdsa
 import CoseModel.Key
@@ -31,8 +32,63 @@ theorem coord_roundtrip (size x : Nat) : os2ip (leftPad size (natBytes x)) = x :
 theorem coord_reencode (size : Nat) (b : Bytes) : os2ip (leftPad size b) = os2ip b :=
   CoseModel.os2ip_leftPad size b
 
+/-! ### the constructor's coordinate (`ec2Coordinate`, NewKeyFromPublic / NewKeyFromPrivate) -/
+
+/-- a coordinate that fits the field — 0 included — is stored at exactly the field size -/
+theorem ec2Coordinate_of_fits (size x : Nat) (h : x < 256 ^ size) :
+    ec2Coordinate x size = fillBytes size x ∧ (ec2Coordinate x size).length = size := by
+  have hb := (CoseModel.bitLen_le_iff x size).mpr h
+  have e : ec2Coordinate x size = fillBytes size x := by
+    unfold ec2Coordinate
+    rw [if_neg (by omega)]
+  exact ⟨e, by rw [e, CoseModel.fillBytes_length]⟩
+
+/-- a coordinate that does not fit is left in minimal form, which is longer than the field:
+    `validate` refuses it -/
+theorem ec2Coordinate_oversize (size x : Nat) (h : ¬ x < 256 ^ size) :
+    ec2Coordinate x size = natBytes x ∧ size < (ec2Coordinate x size).length := by
+  have hb : ¬ bitLen x ≤ size * 8 := fun hc => h ((CoseModel.bitLen_le_iff x size).mp hc)
+  have e : ec2Coordinate x size = natBytes x := by
+    unfold ec2Coordinate
+    rw [if_pos (by omega)]
+  refine ⟨e, ?_⟩
+  rw [e]
+  have := (CoseModel.natBytes_length_le_iff x size)
+  omega
+
+/-- so: the stored coordinate passes the length check of `validate` exactly when the value fits,
+    and then it has the full width -/
+theorem ec2Coordinate_length_le (size x : Nat) (h : (ec2Coordinate x size).length ≤ size) :
+    x < 256 ^ size ∧ ec2Coordinate x size = fillBytes size x := by
+  by_cases hfit : x < 256 ^ size
+  · exact ⟨hfit, (ec2Coordinate_of_fits size x hfit).1⟩
+  · have := (ec2Coordinate_oversize size x hfit).2
+    omega
+
+/-- the zero coordinate: `size` zero octets, not the empty string of `big.Int.Bytes()` -/
+theorem ec2Coordinate_zero (size : Nat) : ec2Coordinate 0 size = List.replicate size 0 := by
+  rw [(ec2Coordinate_of_fits size 0 (Nat.pow_pos (by decide))).1, CoseModel.fillBytes_zero]
+
+/-- the round trip of the constructor's coordinate through `SetBytes`, for every value -/
+theorem ec2Coordinate_roundtrip (size x : Nat) : os2ip (ec2Coordinate x size) = x := by
+  unfold ec2Coordinate
+  split
+  · exact CoseModel.os2ip_natBytes x
+  · rename_i hb
+    exact CoseModel.os2ip_fillBytes size x ((CoseModel.bitLen_le_iff x size).mp (by omega))
+
+/-- serialising pads nothing more: a full-width coordinate is emitted as it is -/
+theorem coord_fullwidth_fill (size x : Nat) :
+    leftPad size (fillBytes size x) = fillBytes size x ∧ (leftPad size (fillBytes size x)).length = size := by
+  rw [CoseModel.leftPad_fillBytes]
+  exact ⟨rfl, CoseModel.fillBytes_length size x⟩
+
 theorem curveSize_values : curveSize 1 = 32 ∧ curveSize 2 = 48 ∧ curveSize 3 = 66 := by decide
 
 example : leftPad 4 (natBytes 258) = [0, 0, 1, 2] := by simp [natBytes, leftPad]
+example : ec2Coordinate 258 4 = [0, 0, 1, 2] := by decide
+example : ec2Coordinate 0 4 = [0, 0, 0, 0] := by decide
+example : ec2Coordinate 65536 2 = [1, 0, 0] := by
+  rw [(ec2Coordinate_oversize 2 65536 (by decide)).1]; simp [natBytes]
 
 end C14
